@@ -67,12 +67,21 @@ TVWrite  == Step("vwrite")  /\ Ev.x > 0 /\ M % Ev.x = 0 /\ ValidWord(UnflatWord(
                             /\ LET v == DenView(UnflatWord(Ev.w), M \div Ev.x, Ev.x)
                                IN Ev.i < v.vr /\ Ev.k < v.vc /\ Val1(CWrite(C, v.map[<<Ev.i, Ev.k>>], Ev.p[1]))
                             /\ UNCHANGED cit
+(* Real element types: the element gets a non-zero derivative, its value stays (written value + 10, see SparseVector.tla) *)
+TSetVar  == Step("setvar")  /\ Ev.i \in Idx(M) /\ C[Ev.i] < 5 /\ Val1([C EXCEPT ![Ev.i] = C[Ev.i] + 10]) /\ UNCHANGED cit
+(* a whole-view operation with a slice view as receiver; w = word, k = columns, p = operand matrix, x = scalar *)
+TBulk    == /\ l <= Len(Trace) /\ Ev.e \in BulkOps /\ l' = l + 1
+            /\ Ev.k > 0 /\ M % Ev.k = 0 /\ ValidWord(UnflatWord(Ev.w), M \div Ev.k, Ev.k) /\ ~HasT(UnflatWord(Ev.w))
+            /\ (Ev.e \in BulkOperandOps => Len(Ev.p) = M)
+            /\ Val1(CViewBulk(C, DenView(UnflatWord(Ev.w), M \div Ev.k, Ev.k), Ev.e,
+                              IF Ev.e \in BulkOperandOps THEN FunOf(Ev.p) ELSE ConstFun(M, 0), Ev.x))
+            /\ UNCHANGED cit
 TJWalk   == Step("jwalk")   /\ Len(Ev.w) = M /\ Same /\ UNCHANGED cit
 
 TraceInit == /\ l = 1 /\ n = [o \in Objs |-> 0] /\ content = [o \in Objs |-> <<>>]
              /\ cit = [j \in 1..NI |-> IterDead] /\ must = {} /\ taint = [o \in Objs |-> {}]
 TraceNext == TNew \/ TWrite \/ TReset \/ TSwap \/ TSwapRows \/ TSwapCols \/ TReverse \/ TPermute \/ TSort \/ TSlice \/ TAppendS
-             \/ TAppendV \/ TArith \/ TIter \/ TFrom \/ TNext \/ TWalk \/ TVWalk \/ TVWrite \/ TJWalk
+             \/ TAppendV \/ TArith \/ TIter \/ TFrom \/ TNext \/ TWalk \/ TVWalk \/ TVWrite \/ TSetVar \/ TBulk \/ TJWalk
 TraceSpec == TraceInit /\ [][TraceNext]_tvars
 
 (* observations logged with the event that produced the current state *)
